@@ -1,4 +1,4 @@
-(* WatcherProps.v — theorems about Watcher.v (C04). *)
+(* WatcherProps.v — theorems about Watcher.v (C04, and the watch side of C03). *)
 From KC Require Import Base Cache Watcher.
 
 Lemma wseq_snoc a k : wseq a k ++ [S (a + k)] = wseq a (S k).
@@ -18,104 +18,240 @@ Proof.
   injection H as -> H. simpl. f_equal. eapply IH, H.
 Qed.
 
-Definition winv (s : wst) : Prop :=
-  w_applied s ++ w_obuf s = wseq 0 (w_cur s) /\
-  (w_has s = true -> w_sbuf s = wseq (w_cur s) (w_pos s - w_cur s) /\ w_cur s <= w_pos s /\ w_pos s <= w_n s) /\
+Lemma wseq_in a k i : In i (wseq a k) -> a < i /\ i <= a + k.
+Proof.
+  revert a. induction k as [|k IH]; intros a H; simpl in H; [contradiction|].
+  destruct H as [<- | H]; [lia|]. apply IH in H. lia.
+Qed.
+
+(* ------------------------------------------------------------------ *)
+(* strictly increasing lists inside a window (lo, hi]                   *)
+
+Fixpoint incr_within (lo hi : nat) (l : list nat) : Prop :=
+  match l with
+  | [] => lo <= hi
+  | x :: r => lo < x /\ incr_within x hi r
+  end.
+
+Lemma incr_bounds lo hi l : incr_within lo hi l -> lo <= hi.
+Proof. revert lo. induction l as [|x r IH]; intros lo H; simpl in H; [exact H|]. destruct H as [H1 H2]. apply IH in H2. lia. Qed.
+
+Lemma incr_widen lo hi hi' l : incr_within lo hi l -> hi <= hi' -> incr_within lo hi' l.
+Proof. revert lo. induction l as [|x r IH]; intros lo H Hh; simpl in *; [lia|]. destruct H. split; [assumption|]. apply IH; assumption. Qed.
+
+Lemma incr_snoc lo hi l x : incr_within lo hi l -> hi < x -> incr_within lo x (l ++ [x]).
+Proof.
+  revert lo. induction l as [|y r IH]; intros lo H Hx; simpl in *.
+  - split; lia.
+  - destruct H. split; [assumption|]. apply IH; assumption.
+Qed.
+
+Lemma incr_in lo hi l i : incr_within lo hi l -> In i l -> lo < i /\ i <= hi.
+Proof.
+  revert lo. induction l as [|x r IH]; intros lo H Hi; simpl in *; [contradiction|].
+  destruct H as [H1 H2]. destruct Hi as [<- | Hi].
+  - apply incr_bounds in H2. lia.
+  - apply IH in H2; [lia | exact Hi].
+Qed.
+
+Lemma incr_nodup lo hi l : incr_within lo hi l -> NoDup l.
+Proof.
+  revert lo. induction l as [|x r IH]; intros lo H; [constructor|].
+  simpl in H. destruct H as [H1 H2]. constructor; [|eapply IH; exact H2].
+  intros Hin. eapply incr_in in Hin; [|exact H2]. lia.
+Qed.
+
+Lemma wseq_incr a k : incr_within a (a + k) (wseq a k).
+Proof.
+  revert a. induction k as [|k IH]; intros a; simpl; [lia|].
+  split; [lia|]. replace (a + S k) with (S a + k) by lia. apply IH.
+Qed.
+
+(* ------------------------------------------------------------------ *)
+(* the invariant: an exact part that holds while nothing was lost, and  *)
+(* an order part that holds whatever was lost                           *)
+
+Definition winv_exact (s : wst) : Prop :=
+  w_applied s ++ w_obuf s = wseq (w_base s) (w_cur s - w_base s) /\
+  (w_has s = true -> w_sbuf s = wseq (w_cur s) (w_pos s - w_cur s)).
+
+Definition winv_order (s : wst) : Prop :=
+  incr_within (w_base s) (w_cur s) (w_applied s ++ w_obuf s) /\
+  (w_has s = true -> incr_within (w_cur s) (w_pos s) (w_sbuf s) /\ w_pos s <= w_n s) /\
   (w_has s = false -> w_sbuf s = []) /\
   w_cur s <= w_n s /\
   (w_conn s = true -> w_has s = true).
 
-Lemma winv_init : winv winit.
-Proof. unfold winv, winit; simpl. repeat split; auto; try discriminate. Qed.
+Definition winv (s : wst) : Prop := winv_order s /\ (w_lost s = 0 -> winv_exact s).
 
-Ltac wfin :=
-  unfold winv; cbn [w_n w_conn w_has w_pos w_sbuf w_obuf w_applied w_cur]; repeat split; intros;
-  try discriminate; try lia; auto; try tauto.
+Lemma winv_init cap : winv (winit cap).
+Proof.
+  unfold winv, winv_order, winv_exact, winit; simpl. repeat split; auto; try discriminate; try lia.
+Qed.
+
+Ltac wsimp := cbn [w_n w_conn w_has w_pos w_sbuf w_obuf w_applied w_cur w_base w_cap w_lost] in *.
+
+Ltac word := unfold winv_order; wsimp; split; [|split; [|split; [|split]]].
 
 Lemma winv_step s a s' : winv s -> wstep s a = Some s' -> winv s'.
 Proof.
-  intros [H1 [H2 [H3 [H4 H5]]]] Hs. destruct s as [n conn has pos sbuf obuf applied cur]. simpl in *.
-  destruct has.
-  - (* the watcher holds a session *)
-    destruct (H2 eq_refl) as [Hb [Hc Hp]]. clear H2 H3.
-    destruct a; simpl in Hs.
-    + injection Hs as <-. wfin.
-    + destruct conn; simpl in Hs; [|discriminate].
-      destruct (Nat.ltb_spec pos n); [|discriminate]. injection Hs as <-.
-      assert (Hkey : wseq cur (pos - cur) ++ [S pos] = wseq cur (S pos - cur)).
-      { replace (S pos - cur) with (S (pos - cur)) by lia. rewrite <- wseq_snoc. do 2 f_equal. lia. }
-      wfin. rewrite Hb. exact Hkey.
-    + destruct conn; [|discriminate]. injection Hs as <-. wfin.
-    + destruct conn; [|discriminate]. injection Hs as <-. wfin.
-    + destruct sbuf as [|i rest]; [discriminate|]. injection Hs as <-.
-      destruct (pos - cur) as [|k] eqn:Hk; simpl in Hb; [discriminate|]. injection Hb as -> ->.
-      assert (Hkey : wseq 0 cur ++ [S cur] = wseq 0 (S cur)) by (rewrite <- wseq_snoc; reflexivity).
-      wfin.
-      * rewrite app_assoc, H1. exact Hkey.
-      * f_equal. lia.
-    + destruct conn; simpl in Hs; [discriminate|]. injection Hs as <-. wfin.
-    + discriminate.
-    + discriminate.
-    + destruct obuf as [|i rest]; [discriminate|]. injection Hs as <-. wfin.
-      rewrite <- app_assoc. exact H1.
-  - (* no session: waiting for the retry *)
-    assert (Hsb : sbuf = []) by (apply H3; reflexivity). subst sbuf.
-    assert (Hcn : conn = false) by (destruct conn; [specialize (H5 eq_refl); discriminate | reflexivity]). subst conn.
-    clear H2 H3.
-    destruct a; simpl in Hs; try discriminate.
-    + injection Hs as <-. wfin.
-    + injection Hs as <-. wfin. rewrite Nat.sub_diag. reflexivity.
-    + injection Hs as <-. wfin. rewrite Nat.sub_diag. reflexivity.
-    + destruct obuf as [|i rest]; [discriminate|]. injection Hs as <-. wfin.
-      rewrite <- app_assoc. exact H1.
+  intros [[O1 [O2 [O3 [O4 O5]]]] HX] Hs.
+  destruct s as [n conn has pos sbuf obuf applied cur base cap lost]. unfold winv_exact in HX. wsimp.
+  assert (Hbc : base <= cur) by (eapply incr_bounds; exact O1).
+  destruct a; simpl in Hs.
+  - (* WEmit *)
+    injection Hs as <-. split; [|exact HX]. word.
+    + exact O1.
+    + intros Hh. destruct (O2 Hh). split; [assumption | lia].
+    + exact O3.
+    + lia.
+    + exact O5.
+  - (* WDeliver *)
+    destruct conn; simpl in Hs; [|discriminate]. destruct has; simpl in Hs; [|discriminate].
+    destruct (Nat.ltb_spec pos n) as [Hpn|]; [|discriminate].
+    destruct (O2 eq_refl) as [Hsb Hp].
+    destruct (Nat.ltb_spec (length sbuf) cap) as [Hroom|Hfull]; injection Hs as <-.
+    + split.
+      * word; [exact O1 | | discriminate | exact O4 | reflexivity].
+        intros _. split; [|lia]. apply incr_snoc with (hi := pos); [exact Hsb | lia].
+      * intros Hl; wsimp. destruct (HX Hl) as [X1 X2]. unfold winv_exact; wsimp. split; [exact X1|]. intros _.
+        rewrite (X2 eq_refl).
+        assert (Hcp : cur <= pos) by (eapply incr_bounds; exact Hsb).
+        replace (S pos - cur) with (S (pos - cur)) by lia. rewrite <- wseq_snoc. do 2 f_equal. lia.
+    + split.
+      * word; [exact O1 | | discriminate | exact O4 | reflexivity].
+        intros _. split; [|lia]. eapply incr_widen; [exact Hsb | lia].
+      * wsimp. discriminate.
+  - (* WFrame *)
+    destruct conn; [|discriminate]. injection Hs as <-. split; [|exact HX].
+    word; assumption.
+  - (* WSessEnd *)
+    destruct conn; [|discriminate]. injection Hs as <-. split; [|exact HX].
+    word; try assumption. discriminate.
+  - (* WTake *)
+    destruct has; [|discriminate]. destruct sbuf as [|i rest]; [discriminate|].
+    destruct (O2 eq_refl) as [Hsb Hp]. simpl in Hsb. destruct Hsb as [Hci Hrest].
+    assert (Hip : i <= pos) by (eapply incr_bounds; exact Hrest).
+    destruct (Nat.ltb_spec (length obuf) cap) as [Hroom|Hfull]; injection Hs as <-.
+    + split.
+      * word; [ | | discriminate | lia | exact O5].
+        -- rewrite app_assoc. apply incr_snoc with (hi := cur); assumption.
+        -- intros _. split; assumption.
+      * intros Hl; wsimp. destruct (HX Hl) as [X1 X2]. specialize (X2 eq_refl).
+        destruct (pos - cur) as [|k] eqn:Hk; simpl in X2; [discriminate|]. injection X2 as -> ->.
+        unfold winv_exact; wsimp. split.
+        -- rewrite app_assoc, X1. replace (S cur - base) with (S (cur - base)) by lia.
+           rewrite <- wseq_snoc. do 2 f_equal. lia.
+        -- intros _. f_equal. lia.
+    + split.
+      * word; [ | | discriminate | lia | exact O5].
+        -- eapply incr_widen; [exact O1 | lia].
+        -- intros _. split; assumption.
+      * wsimp. discriminate.
+  - (* WDone *)
+    destruct has; simpl in Hs; [|discriminate]. destruct conn; simpl in Hs; [discriminate|].
+    injection Hs as <-. split.
+    + word; [exact O1 | discriminate | reflexivity | exact O4 | discriminate].
+    + intros Hl; wsimp. destruct (HX Hl) as [X1 _]. unfold winv_exact; wsimp. split; [exact X1|discriminate].
+  - (* WRetry *)
+    destruct has; simpl in Hs; [discriminate|]. injection Hs as <-. split.
+    + word; [exact O1 | | discriminate | exact O4 | reflexivity].
+      intros _. split; [simpl; lia | exact O4].
+    + intros Hl; wsimp. destruct (HX Hl) as [X1 _]. unfold winv_exact; wsimp. split; [exact X1|].
+      intros _. rewrite Nat.sub_diag. reflexivity.
+  - (* WRetryFail *)
+    destruct has; simpl in Hs; [discriminate|]. injection Hs as <-. split.
+    + word; [exact O1 | | discriminate | exact O4 | discriminate].
+      intros _. split; [simpl; lia | exact O4].
+    + intros Hl; wsimp. destruct (HX Hl) as [X1 _]. unfold winv_exact; wsimp. split; [exact X1|].
+      intros _. rewrite Nat.sub_diag. reflexivity.
+  - (* WApply *)
+    destruct obuf as [|i rest]; [discriminate|]. injection Hs as <-. split.
+    + word; try assumption. rewrite <- app_assoc. exact O1.
+    + intros Hl; wsimp. destruct (HX Hl) as [X1 X2]. unfold winv_exact; wsimp. split; [|exact X2].
+      rewrite <- app_assoc. exact X1.
+  - (* WReset *)
+    destruct (Nat.leb_spec b n); [|discriminate]. injection Hs as <-. split.
+    + word; [simpl; lia | | discriminate | assumption | reflexivity].
+      intros _. split; [simpl; lia | assumption].
+    + intros _. unfold winv_exact; wsimp. rewrite Nat.sub_diag. split; reflexivity.
 Qed.
 
 (* C04: the pipeline invariant holds after every sequence of server changes,
-   deliveries, faults, reconnects and controller steps *)
-Theorem watch_pipeline_invariant : forall l s, wrun winit l = Some s -> winv s.
+   deliveries, faults, buffer overflows, reconnects, relists and controller
+   steps *)
+Theorem watch_pipeline_invariant : forall cap l s, wrun (winit cap) l = Some s -> winv s.
 Proof.
-  intros l. assert (H : forall s0, winv s0 -> forall s, wrun s0 l = Some s -> winv s).
+  intros cap l. assert (H : forall s0, winv s0 -> forall s, wrun s0 l = Some s -> winv s).
   { induction l as [|a l IH]; intros s0 H0 s Hr; simpl in Hr.
     - injection Hr as <-. exact H0.
     - destruct (wstep s0 a) as [s1|] eqn:Hs; [|discriminate]. eapply IH; [|exact Hr]. eapply winv_step; eassumption. }
   apply H, winv_init.
 Qed.
 
-(* what the controller applied is the server's log from the start, in order,
-   with no duplicate and no omission *)
-Theorem applied_is_prefix_of_log : forall l s, wrun winit l = Some s ->
-  w_applied s = wseq 0 (length (w_applied s)) /\ length (w_applied s) <= w_n s.
+(* while no buffer overflowed since the last list: what the controller applied
+   since then is the server's log from that list's version on, in order, with
+   no duplicate and no omission *)
+Theorem applied_is_prefix_of_log : forall cap l s, wrun (winit cap) l = Some s -> w_lost s = 0 ->
+  w_applied s = wseq (w_base s) (length (w_applied s)) /\ w_base s + length (w_applied s) <= w_n s.
 Proof.
-  intros l s Hr. destruct (watch_pipeline_invariant l s Hr) as [H1 [_ [_ [H4 _]]]].
-  split.
-  - eapply wseq_prefix, H1.
-  - assert (Hl : length (w_applied s ++ w_obuf s) = w_cur s) by (rewrite H1; apply wseq_length).
-    rewrite app_length in Hl. lia.
+  intros cap l s Hr Hl. destruct (watch_pipeline_invariant cap l s Hr) as [[O1 [_ [_ [O4 _]]]] HX].
+  destruct (HX Hl) as [X1 _]. split.
+  - eapply wseq_prefix, X1.
+  - assert (Hlen : length (w_applied s ++ w_obuf s) = w_cur s - w_base s) by (rewrite X1; apply wseq_length).
+    rewrite app_length in Hlen. apply incr_bounds in O1. lia.
+Qed.
+
+(* whatever overflowed: what was applied since the last list is in log order
+   without duplicates, and nothing in it, in the channel or in the session
+   predates that list (C03: the old session and the old channel are discarded
+   with everything they held) *)
+Theorem applied_in_order_without_duplicates : forall cap l s, wrun (winit cap) l = Some s ->
+  incr_within (w_base s) (w_cur s) (w_applied s ++ w_obuf s) /\ NoDup (w_applied s ++ w_obuf s).
+Proof.
+  intros cap l s Hr. destruct (watch_pipeline_invariant cap l s Hr) as [[O1 _] _].
+  split; [exact O1 | eapply incr_nodup; exact O1].
+Qed.
+
+Theorem nothing_stale_after_reset : forall cap l s i, wrun (winit cap) l = Some s ->
+  In i (w_applied s ++ w_obuf s ++ w_sbuf s) -> w_base s < i /\ i <= w_n s.
+Proof.
+  intros cap l s i Hr Hi. destruct (watch_pipeline_invariant cap l s Hr) as [[O1 [O2 [O3 [O4 O5]]]] _].
+  rewrite app_assoc in Hi. apply in_app_or in Hi. destruct Hi as [Hi | Hi].
+  - eapply incr_in in Hi; [|exact O1]. lia.
+  - destruct (w_has s) eqn:Hh.
+    + destruct (O2 eq_refl) as [Hsb Hp]. eapply incr_in in Hi; [|exact Hsb].
+      apply incr_bounds in O1. lia.
+    + rewrite (O3 eq_refl) in Hi. contradiction.
 Qed.
 
 (* a reconnect resumes right after the last entry taken *)
-Theorem reconnect_resumes_after_last_taken : forall l s s', wrun winit l = Some s ->
+Theorem reconnect_resumes_after_last_taken : forall cap l s s', wrun (winit cap) l = Some s ->
   wstep s WRetry = Some s' ->
-  w_pos s' = w_cur s /\ w_cur s = length (w_applied s ++ w_obuf s) /\ w_obuf s' = w_obuf s.
+  w_pos s' = w_cur s /\ w_obuf s' = w_obuf s /\
+  (w_lost s = 0 -> w_cur s = w_base s + length (w_applied s ++ w_obuf s)).
 Proof.
-  intros l s s' Hr Hs. destruct (watch_pipeline_invariant l s Hr) as [H1 _].
+  intros cap l s s' Hr Hs. destruct (watch_pipeline_invariant cap l s Hr) as [[O1 _] HX].
   simpl in Hs. destruct (w_has s); simpl in Hs; [discriminate|]. injection Hs as <-. simpl.
-  repeat split. rewrite H1, wseq_length. reflexivity.
+  repeat split. intros Hl. destruct (HX Hl) as [X1 _]. rewrite X1, wseq_length. apply incr_bounds in O1. lia.
 Qed.
 
-(* an entry taken from a session is applied or still in the channel the
-   controller reads: no step discards it *)
-Theorem received_not_discarded : forall s a s', wstep s a = Some s' ->
+(* an entry that made it into the channel the controller reads is applied or
+   still there: no step but a relist's reset discards it *)
+Theorem received_not_discarded : forall s a s', (forall b, a <> WReset b) -> wstep s a = Some s' ->
   exists more, w_applied s' ++ w_obuf s' = (w_applied s ++ w_obuf s) ++ more.
 Proof.
-  intros s a s' Hs. destruct s as [n conn has pos sbuf obuf applied cur].
-  destruct a; simpl in Hs.
+  intros s a s' Hnr Hs. destruct s as [n conn has pos sbuf obuf applied cur base cap lost].
+  destruct a; simpl in Hs; [| | | | | | | | |exfalso; eapply Hnr; reflexivity].
   - injection Hs as <-. exists []. simpl. rewrite app_nil_r. reflexivity.
-  - destruct (conn && has && Nat.ltb pos n); [|discriminate]. injection Hs as <-. exists []. simpl. rewrite app_nil_r. reflexivity.
+  - destruct (conn && has && Nat.ltb pos n); [|discriminate].
+    destruct (Nat.ltb (length sbuf) cap); injection Hs as <-; exists []; simpl; rewrite app_nil_r; reflexivity.
   - destruct conn; [|discriminate]. injection Hs as <-. exists []. simpl. rewrite app_nil_r. reflexivity.
   - destruct conn; [|discriminate]. injection Hs as <-. exists []. simpl. rewrite app_nil_r. reflexivity.
-  - destruct has; [|discriminate]. destruct sbuf as [|i rest]; [discriminate|]. injection Hs as <-.
-    exists [i]. simpl. rewrite app_assoc. reflexivity.
+  - destruct has; [|discriminate]. destruct sbuf as [|i rest]; [discriminate|].
+    destruct (Nat.ltb (length obuf) cap); injection Hs as <-.
+    + exists [i]. simpl. rewrite app_assoc. reflexivity.
+    + exists []. simpl. rewrite app_nil_r. reflexivity.
   - destruct (has && negb conn); [|discriminate]. injection Hs as <-. exists []. simpl. rewrite app_nil_r. reflexivity.
   - destruct (negb has); [|discriminate]. injection Hs as <-. exists []. simpl. rewrite app_nil_r. reflexivity.
   - destruct (negb has); [|discriminate]. injection Hs as <-. exists []. simpl. rewrite app_nil_r. reflexivity.
@@ -123,28 +259,64 @@ Proof.
     rewrite app_nil_r, <- app_assoc. reflexivity.
 Qed.
 
-(* C04: when nothing the library can do is left, everything the server
-   emitted has been applied, in order — no relist needed *)
-Theorem watch_quiescent_complete : forall l s, wrun winit l = Some s ->
-  wquiescent s = true -> w_applied s = wseq 0 (w_n s).
+(* nothing is lost while the two buffers have room: loss needs a full buffer *)
+Theorem loss_needs_full_buffer : forall s a s', wstep s a = Some s' -> w_lost s' <> w_lost s ->
+  (exists b, a = WReset b) \/
+  (a = WDeliver /\ length (w_sbuf s) >= w_cap s) \/ (a = WTake /\ length (w_obuf s) >= w_cap s).
 Proof.
-  intros l s Hr Hq. destruct (watch_pipeline_invariant l s Hr) as [H1 [H2 [H3 [H4 H5]]]].
-  destruct s as [n conn has pos sbuf obuf applied cur]. unfold wquiescent in Hq. simpl in *.
+  intros s a s' Hs Hne. destruct s as [n conn has pos sbuf obuf applied cur base cap lost].
+  destruct a; simpl in Hs; wsimp.
+  - injection Hs as <-. simpl in Hne. congruence.
+  - destruct (conn && has && Nat.ltb pos n); [|discriminate].
+    destruct (Nat.ltb_spec (length sbuf) cap); injection Hs as <-; simpl in Hne; [congruence|].
+    right. left. split; [reflexivity | assumption].
+  - destruct conn; [|discriminate]. injection Hs as <-. simpl in Hne. congruence.
+  - destruct conn; [|discriminate]. injection Hs as <-. simpl in Hne. congruence.
+  - destruct has; [|discriminate]. destruct sbuf as [|i rest]; [discriminate|].
+    destruct (Nat.ltb_spec (length obuf) cap); injection Hs as <-; simpl in Hne; [congruence|].
+    right. right. split; [reflexivity | assumption].
+  - destruct (has && negb conn); [|discriminate]. injection Hs as <-. simpl in Hne. congruence.
+  - destruct (negb has); [|discriminate]. injection Hs as <-. simpl in Hne. congruence.
+  - destruct (negb has); [|discriminate]. injection Hs as <-. simpl in Hne. congruence.
+  - destruct obuf; [discriminate|]. injection Hs as <-. simpl in Hne. congruence.
+  - left. eexists. reflexivity.
+Qed.
+
+(* C03: a relist's reset wipes the slate — whatever overflowed before it, the
+   exact invariant holds again from the list's version on *)
+Theorem reset_heals : forall s b s', wstep s (WReset b) = Some s' ->
+  w_lost s' = 0 /\ w_base s' = b /\ w_applied s' = [] /\ w_obuf s' = [] /\ w_sbuf s' = [] /\ w_cur s' = b.
+Proof.
+  intros s b s' Hs. simpl in Hs. destruct (Nat.leb b (w_n s)); [|discriminate]. injection Hs as <-. simpl.
+  repeat split.
+Qed.
+
+(* C04: when nothing the library can do is left and no buffer overflowed,
+   everything the server emitted since the last list has been applied, in
+   order — no relist needed *)
+Theorem watch_quiescent_complete : forall cap l s, wrun (winit cap) l = Some s ->
+  wquiescent s = true -> w_lost s = 0 -> w_applied s = wseq (w_base s) (w_n s - w_base s).
+Proof.
+  intros cap l s Hr Hq Hl. destruct (watch_pipeline_invariant cap l s Hr) as [[O1 [O2 [O3 [O4 O5]]]] HX].
+  destruct (HX Hl) as [X1 X2].
+  destruct s as [n conn has pos sbuf obuf applied cur base cp lost]. unfold wquiescent in Hq. wsimp. simpl in Hq.
   destruct has.
-  - destruct (H2 eq_refl) as [Hb [Hc Hp]].
+  - destruct (O2 eq_refl) as [Hsb Hp]. specialize (X2 eq_refl).
     destruct conn; simpl in Hq.
-    + destruct (Nat.ltb_spec pos n); [discriminate|].
-      destruct sbuf as [|i rest]; [|discriminate].
-      destruct obuf as [|j rest']; [|discriminate].
-      rewrite app_nil_r in H1. rewrite H1. f_equal.
-      assert (pos - cur = 0) by (destruct (pos - cur); [reflexivity | discriminate]). lia.
-    + destruct sbuf; discriminate.
+    + destruct (Nat.ltb_spec pos n).
+      * destruct (Nat.ltb (length sbuf) cp); discriminate.
+      * destruct sbuf as [|i rest]; [|destruct (Nat.ltb (length obuf) cp); discriminate].
+        destruct obuf as [|j rest']; [|discriminate].
+        rewrite app_nil_r in X1. rewrite X1. f_equal.
+        assert (pos - cur = 0) by (destruct (pos - cur); [reflexivity | discriminate]).
+        apply incr_bounds in Hsb. lia.
+    + destruct sbuf; [discriminate|]. destruct (Nat.ltb (length obuf) cp); discriminate.
   - simpl in Hq. destruct conn; simpl in Hq; discriminate.
 Qed.
 
-Theorem watch_quiescent_cache : forall F c0 entry l s, wrun winit l = Some s ->
-  wquiescent s = true ->
-  cache_after F c0 entry (w_applied s) = cache_after F c0 entry (wseq 0 (w_n s)).
+Theorem watch_quiescent_cache : forall F c0 entry cap l s, wrun (winit cap) l = Some s ->
+  wquiescent s = true -> w_lost s = 0 ->
+  cache_after F c0 entry (w_applied s) = cache_after F c0 entry (wseq (w_base s) (w_n s - w_base s)).
 Proof. intros. f_equal. eapply watch_quiescent_complete; eassumption. Qed.
 
 (* status, bookmark and unknown frames change nothing *)
@@ -182,7 +354,27 @@ Fixpoint settle (fuel : nat) (s : wst) : wst :=
 (* non-vacuity and the D4 history: one event, the server closes the stream,
    one more event; the library's own steps bring the second event in *)
 Example d4_history_converges :
-  exists s, wrun winit [WEmit; WDeliver; WTake; WApply; WSessEnd; WEmit] = Some s /\
+  exists s, wrun (winit 4) [WEmit; WDeliver; WTake; WApply; WSessEnd; WEmit] = Some s /\
             w_applied s = [1] /\
-            wquiescent (settle 10 s) = true /\ w_applied (settle 10 s) = [1; 2].
-Proof. eexists. split; [reflexivity|]. vm_compute. repeat split; reflexivity. Qed.
+            wquiescent (settle 10 s) = true /\ w_applied (settle 10 s) = [1; 2] /\ w_lost (settle 10 s) = 0.
+Proof. eexists. split; [vm_compute; reflexivity|]. vm_compute. repeat split; reflexivity. Qed.
+
+(* the stale-buffer history: two entries sit in the output channel when a
+   list taken at version 2 arrives; the reset discards them, and only what
+   follows the list is applied afterwards *)
+Example stale_buffer_discarded_at_reset :
+  exists s, wrun (winit 4) [WEmit; WEmit; WDeliver; WDeliver; WTake; WTake; WReset 2; WEmit] = Some s /\
+            w_obuf s = [] /\ w_applied (settle 10 s) = [3] /\ wquiescent (settle 10 s) = true.
+Proof. eexists. split; [vm_compute; reflexivity|]. vm_compute. repeat split; reflexivity. Qed.
+
+(* an overflow history (capacity 1): the second of two entries taken while the
+   controller is busy is lost and stays lost — applied = [1; 3] — until the
+   relist's reset, after which the exact invariant holds again *)
+Example overflow_lost_until_relist :
+  exists s, wrun (winit 1) [WEmit; WEmit; WDeliver; WTake; WDeliver; WTake; WApply; WEmit; WDeliver; WTake; WApply] = Some s /\
+            w_applied s = [1; 3] /\ w_lost s = 1 /\ wquiescent s = true /\
+            exists s', wstep s (WReset 3) = Some s' /\ w_lost s' = 0 /\ winv_exact s'.
+Proof.
+  eexists. split; [vm_compute; reflexivity|]. vm_compute. repeat split; try reflexivity.
+  eexists. split; [reflexivity|]. vm_compute. repeat split; reflexivity.
+Qed.
